@@ -73,6 +73,12 @@ CHECKS.update({
    design_ref="4.4", note=HIST_NOTE),
 })
 
+CHECKS.update({
+ "C19": dict(engine="procmc", category="exploration", technique="bounded-exhaustive enumeration of a boundary alphabet of command lines on the real release binary (private mount namespaces), exact oracle",
+   text="The release clockbound binary (built without hooks from the current tree) is started once per --max-drift-rate value in a private mount namespace with its own tmpfs on /run; the drift field of the segment it publishes must be exactly 1000 x the value (1000 when omitted), or the process must exit non-zero without publishing. Alphabet: small values, powers of two +/- 1 and, for every k = 1..999 (thorough; a subset in quick), both sides of the point where value x 1000 crosses k x 2^32, so any wrapping/truncating/saturating conversion is caught; plus arguments clap must reject. Not exhaustive over 2^32 values (stated in the evidence).",
+   design_ref="7", note="Trusted base: unshare/tmpfs isolation, od/stat to read the published segment. Without chronyd the first poll fails at once and the first (Unknown) record is published within milliseconds."),
+})
+
 NOT_APPLICABLE = {}
 
 def main():
